@@ -240,7 +240,136 @@ func goBodyOnce(fn *ssa.Function) bool {
 			}
 		})
 	}
+	if n == 0 && ok {
+		return goRunByHelper(fn)
+	}
 	return n == 1 && ok
+}
+
+// goRunByHelper: the closure is handed (once, outside loops) to a new helper whose parameter is
+// run exactly once on a goroutine the helper starts once — `goWait(&wg, func() {…})` with
+// `func goWait(wg, f) { wg.Add(1); go func() { defer wg.Done(); f() }() }`, the hand-written
+// form of WaitGroup.Go.
+func goRunByHelper(fn *ssa.Function) bool {
+	par := fn.Parent()
+	if par == nil {
+		return false
+	}
+	sites := 0
+	good := true
+	EachInstrRaw(par, func(i ssa.Instruction) {
+		call, isCall := i.(*ssa.Call)
+		if !isCall {
+			return
+		}
+		for k, a := range call.Call.Args {
+			mc, isMC := a.(*ssa.MakeClosure)
+			if !isMC || mc.Fn != ssa.Value(fn) {
+				continue
+			}
+			sites++
+			h := call.Call.StaticCallee()
+			if h == nil || !IsNewHelper(h) || InLoop(call.Block()) || k >= len(h.Params) {
+				good = false
+				continue
+			}
+			if !paramRunOnceOnGoroutine(h.Params[k]) {
+				good = false
+			}
+		}
+	})
+	return sites == 1 && good
+}
+
+func paramRunOnceOnGoroutine(prm *ssa.Parameter) bool {
+	return valueRunOnceOnGoroutine(prm, 0)
+}
+
+func valueRunOnceOnGoroutine(prm ssa.Value, depth int) bool {
+	runs := 0
+	for _, r := range Refs(prm) {
+		switch x := r.(type) {
+		case *ssa.DebugRef:
+		case *ssa.Store:
+			// a parameter that a closure captures lives in a cell: follow the cell
+			if x.Addr == prm {
+				continue // the store that fills the cell being followed
+			}
+			cell, isCell := x.Addr.(*ssa.Alloc)
+			if !isCell || x.Val != prm || depth > 0 {
+				return false
+			}
+			for _, cr := range Refs(cell) {
+				if st, isSt := cr.(*ssa.Store); isSt && st != x {
+					return false
+				}
+			}
+			if !valueRunOnceOnGoroutine(cell, depth+1) {
+				return false
+			}
+			runs++
+		case *ssa.Go:
+			if x.Call.Value != prm || InLoop(x.Block()) {
+				return false
+			}
+			runs++
+		case *ssa.MakeClosure:
+			g, _ := x.Fn.(*ssa.Function)
+			if g == nil {
+				return false
+			}
+			// the closure must be go'd once, outside loops, right here
+			started := 0
+			for _, rr := range Refs(x) {
+				switch y := rr.(type) {
+				case *ssa.Go:
+					if y.Call.Value != ssa.Value(x) || InLoop(y.Block()) {
+						return false
+					}
+					started++
+				case *ssa.DebugRef:
+				default:
+					return false
+				}
+			}
+			if started != 1 {
+				return false
+			}
+			for bi, b := range x.Bindings {
+				if b != prm {
+					continue
+				}
+				fv := g.FreeVars[bi]
+				for _, u := range Refs(fv) {
+					switch z := u.(type) {
+					case *ssa.DebugRef:
+					case *ssa.Call:
+						if z.Call.Value != ssa.Value(fv) || InLoop(z.Block()) {
+							return false
+						}
+						runs++
+					case *ssa.UnOp:
+						// the captured variable is a cell: its loads must all be plain calls
+						for _, w := range Refs(z) {
+							cl, isCl := w.(*ssa.Call)
+							if !isCl || cl.Call.Value != ssa.Value(z) || InLoop(cl.Block()) {
+								if _, isDbg := w.(*ssa.DebugRef); !isDbg {
+									return false
+								}
+								continue
+							}
+							runs++
+						}
+					default:
+						return false
+					}
+				}
+			}
+		default:
+			return false
+		}
+	}
+	return runs == 1
 }
 
 // onceBody: fn is passed to (*sync.Once).Do.
